@@ -509,6 +509,8 @@ def decide(prop, tier, seed, args):
         # a concrete input on which the real compiled code violates the executable contract: a violation whatever verus digested
         all_obs = {o["id"]: o for r in results for o in r["obligations"]}
         for v in bounded["violations"]:
+            if v.get("props") and prop not in v["props"]:
+                continue  # an end-to-end failure that belongs to another property's clause
             ob = all_obs.get(v.get("obligation"))
             if ob is not None:
                 if prop not in ob["props"] or (prop == "C01" and ob["kind"] != "safety"):
